@@ -71,8 +71,9 @@ def feasible_blocks(ft, assume):
                     else:
                         break
                 v_ = literal_variant(x)
-                if v_ is not None:
-                    idx = (0 if v_ in ("Ok", "Some") else 1) if via else {"Ok": 0, "Err": 1, "None": 0, "Some": 1}[v_]
+                from .terms import variant_index
+                idx = variant_index(ft.facts, v_, via) if v_ is not None else None
+                if idx is not None:
                     tm = ft.blocks[b]["term"]
                     hit = [bb for v, bb in tm["targets"] if int(v) == idx] or [tm["otherwise"]]
                     succs = [s for s in succs if s in hit]
